@@ -113,6 +113,29 @@ def oracle(H):
             Lm = dense(xgi.multiorder_laplacian(H, [1, 2], [1, 2]))
         if np.abs(Lm.sum(axis=1)).max() > 1e-9 or np.abs(Lm - Lm.T).max() > 1e-9 or np.linalg.eigvalsh(Lm).min() < -1e-8:
             return "multiorder_laplacian: row sums / symmetry / PSD fails"
+        for resc in (False, True):
+            for orders, weights in (([1, 2], [1, 2]), ([2, 3, 1], [1, 0.5, 2]), ([3], [1])):
+                want = np.zeros((N, N))
+                for d, w in zip(orders, weights):
+                    es_d = [e for e in edges if len(mem[e]) == d + 1]
+                    K = np.array([sum(1 for e in es_d if n in mem[e]) for n in nodes], dtype=float)
+                    if K.sum() == 0:
+                        continue
+                    A = np.array([[0 if a == b else sum(1 for e in es_d if a in mem[e] and b in mem[e]) for b in nodes] for a in nodes], dtype=float)
+                    L = d * np.diag(K) - A
+                    if resc:
+                        L = L / d
+                    want += L * w / K.mean()
+                outs = []
+                for sparse in (True, False):
+                    with warnings.catch_warnings():
+                        warnings.simplefilter("ignore")
+                        got, rd = xgi.multiorder_laplacian(H, orders, weights, sparse=sparse, rescale_per_node=resc, index=True)
+                    outs.append(dense(got))
+                    if [rd[i] for i in range(N)] != nodes:
+                        return "multiorder_laplacian index map"
+                if np.abs(outs[0] - want).max() > 1e-9 or np.abs(outs[1] - want).max() > 1e-9:
+                    return f"multiorder_laplacian(orders={orders}, weights={weights}, rescale_per_node={resc}) differs from sum_d w_d L_d / <K_d>"
         if edges and not list(H.nodes.isolates()) and all(len(m) > 0 for m in mem.values()):
             outs = []
             for sparse in (True, False):
@@ -185,9 +208,12 @@ def run(v):
                     nq += 1
                 if H.num_nodes:
                     orders = rng.sample([1, 2, 3], 2); weights = [rng.randint(1, 3) for _ in orders]
-                    Lm = xgi.multiorder_laplacian(H, orders, weights, sparse=rng.random() < 0.5)
-                    mo.append(G.gpair("[" + "; ".join(G.gnat(o) for o in orders) + "]", "[" + "; ".join(G.gZ(w) for w in weights) + "]", gqmat(Lm)))
-                    nq += 1
+                    resc = rng.random() < 0.5
+                    Lm = xgi.multiorder_laplacian(H, orders, weights, sparse=rng.random() < 0.5, rescale_per_node=resc)
+                    mo.append(G.gpair("(QMulti [" + "; ".join(G.gnat(o) for o in orders) + "] [" + "; ".join(G.gZ(w) for w in weights) + f"] {G.gbool(resc)})", gqmat(Lm)))
+                    dd = rng.choice([1, 2, 3])
+                    mo.append(G.gpair(f"(QRescaled {G.gnat(dd)})", gqmat(xgi.laplacian(H, order=dd, sparse=rng.random() < 0.5, rescale_per_node=True))))
+                    nq += 2
             opsg = G.glist([hgsim.op_to_gallina(op, ex) for op, ex in zip(r["ops"], r["extras"])])
             terms.append((i, G.gpair(opsg, G.glist(qs), G.glist(mo))))
         except G.Unsupported:
